@@ -145,6 +145,22 @@ class TimersCtx(BaseCtx):
                 self.next_arrival = self.world.now()
                 return ["hfail", 1]
             return ["send", self.k(), rp.encode_keepalive().hex(), []]
+        if getattr(self, "gen_partial_rest", None):
+            # the rest of the frame whose first octets were delivered earlier
+            rest, self.gen_partial_rest = self.gen_partial_rest, None
+            return ["send", self.k(), rest.hex(), []]
+        if self.cfg.get("partial_frames") and rng.chance(0.25):
+            # only the first octets of a message arrive now (TCP segmentation): not a message yet
+            msg = rp.encode_keepalive() if rng.chance(0.6) else base.gen_update(rng, self.cfg, False)
+            cut = rng.randrange(1, len(msg))
+            self.gen_partial_rest = msg[cut:]
+            self.stats["gen:partial_frame_arrival"] += 1
+            return ["send", self.k(), msg[:cut].hex(), []]
+        if self.cfg.get("clock_steps") and getattr(self, "gen_steps", 0) < self.cfg["clock_steps"] and rng.chance(0.3):
+            # the wall clock is stepped (the reactor's time base is monotonic): the timers' contract is unchanged
+            self.gen_steps = getattr(self, "gen_steps", 0) + 1
+            self.next_arrival = self.world.now() + rng.pick([0.0, 0.5])
+            return ["clockstep", rng.pick([-86400.0, -3600.0, -30.0, -2.0, 5.0, 3600.0])]
         if self.cfg.get("malformed_updates") and rng.chance(0.3):
             # a well-framed UPDATE whose body is malformed: still an UPDATE for the hold timer
             from sim.profiles import hostile
@@ -189,6 +205,8 @@ class TimersCtx(BaseCtx):
             return
         if not ran:
             return
+        if op[0] == "clockstep":
+            self.stats["op:clockstep"] += 1
         now = w.now()
         H = self.H
         phase_before = self.phase
@@ -203,7 +221,11 @@ class TimersCtx(BaseCtx):
         rx_kinds = []
         for e in w.log[pos:]:
             if e[2] == "rx":
-                for f in rp.deframe(bytes.fromhex(e[4]))[0]:
+                # frames completed by this chunk (earlier octets of a frame may have arrived before)
+                self.rxbuf = getattr(self, "rxbuf", b"") + bytes.fromhex(e[4])
+                frames, rest = rp.deframe(self.rxbuf)
+                self.rxbuf = rest
+                for f in frames:
                     rx_kinds.append(f.type)
         self.trace.append([self.phase, op[0], [self.tokname(t) for t in toks], rx_kinds])
         for t in toks:
@@ -289,6 +311,7 @@ class TimersCtx(BaseCtx):
             self.phase = "opensent"
             self.t_open_sent = now
             self.cid = t[1]
+            self.rxbuf = b""
             # the negotiated hold time is min of the two OPENs exchanged in this session (RFC 4271 4.2)
             try:
                 fr = [f for f in rp.deframe(w.conns[t[1]].written)[0] if f.type == rp.OPEN]
@@ -383,9 +406,9 @@ class TimersProfile(BaseProfile):
     runs = {"quick": 40000, "thorough": 1500000}
     rule = ("one run = (configured hold, proposed hold) from {0,3,4,9,30,90,180,65535}^2 + a peer arrival schedule of "
             "KEEPALIVE/UPDATE gaps from {H-e,H,H+e,H/3,0,H/2,3H,...} in OpenConfirm and Established (or total silence in "
-            "OpenSent; 20 % of the runs mix in well-framed UPDATEs with malformed bodies - still UPDATEs for the hold timer -, 10 % let the application raise when told that the session is established), all timers fired at their virtual instants with explicit tie order; non-trivial = reached "
+            "OpenSent; 20 % of the runs mix in well-framed UPDATEs with malformed bodies - still UPDATEs for the hold timer -, 10 % let the application raise when told that the session is established, 15 % deliver some messages in two pieces - the first piece is not an arrival -, 15 % step the wall clock while the reactor's time base stays), all timers fired at their virtual instants with explicit tie order; non-trivial = reached "
             "Established or observed an expiry; distinct = distinct (phase, op, outputs, arrivals) sequence")
-    probes = ["gen:malformed_update_arrival", "established_refused_by_application(tolerated)", "gen:late_close_of_earlier_connection", "rest_update_sent", "second_open_in_openconfirm", "two_session_runs", "gen:tie_timer_vs_arrival", "same_instant_timers", "expiry_negotiated_hold", "expiry_large_hold",
+    probes = ["gen:partial_frame_arrival", "op:clockstep", "gen:malformed_update_arrival", "established_refused_by_application(tolerated)", "gen:late_close_of_earlier_connection", "rest_update_sent", "second_open_in_openconfirm", "two_session_runs", "gen:tie_timer_vs_arrival", "same_instant_timers", "expiry_negotiated_hold", "expiry_large_hold",
               "periodic_keepalive", "arrival_restarts_hold", "closed_after_expiry"]
 
     def gen_config(self, rng, idx, tier):
@@ -410,6 +433,17 @@ class TimersProfile(BaseProfile):
             cfg["prelude_late_close"] = True
         cfg["rest_sends"] = rng.chance(0.15)
         cfg["malformed_updates"] = rng.chance(0.2)
+        cfg["partial_frames"] = rng.chance(0.15)
+        cfg["clock_steps"] = rng.pick([1, 2]) if rng.chance(0.15) else 0
+        if rng.chance(0.12) and not cfg.get("hfail_established"):
+            # the stock DefaultHandler (message log with a small rotation threshold on the simulated file
+            # system) is the application; half of these runs also step the wall clock
+            cfg["handler"] = "default"
+            cfg["write_disk"] = True
+            cfg["write_keepalive"] = rng.chance(0.5)
+            cfg["rotate_bytes"] = rng.pick([200, 600, 2000])
+            if rng.chance(0.5):
+                cfg["clock_steps"] = rng.pick([1, 2])
         if rng.chance(0.1):
             cfg["hfail_established"] = rng.pick([1, 2, 3])
             cfg["hfail_only"] = ["on_established"]
